@@ -281,8 +281,8 @@ def run(chk, tier, seed):
     for case, errs in out['nonconform'][:5]:
         chk.notes.append('non-conforming trace: %s %s' % (errs, case))
     if out['soe_skipped']:
-        chk.notes.append('observation (outside the statement of C11): in %d traces a FAILED task '
-                         'with stage_on_error had output directives that were not carried out - '
+        chk.notes.append('observation (outside the statement of C11): in %d traces a FAILED or CANCELED '
+                         'task with stage_on_error had output directives that were not carried out - '
                          'tmgr staging_output skips every task whose target_state is not DONE, '
                          'stage_on_error is only honoured by the agent-side output stager'
                          % out['soe_skipped'])
